@@ -413,6 +413,12 @@ def assemble_item(d, info, src, srcfile_label, log):
                 add(bc, bc, [Seg("\n", None)] + mk(), "INSERT_SPEC")
             elif skind in ("loop", "beforeloop", "afterloop", "inloop"):
                 loops = it["loops"]
+                if len(loops) == 0:
+                    # the function has no loop at all any more: loop clauses have nothing to attach to and straight-line
+                    # code needs none; the function is verified against its unchanged contract without them
+                    log.append({"item": d.path, "file": srcfile_label, "kind": "LOOP_GONE", "at": [bo, bo],
+                                "before": "", "after": "", "note": f"clauses of `{section_label(skind, arg)}` dropped: the function has no loops"})
+                    continue
                 if arg >= len(loops):
                     raise Undecided(f"{d.path}: loop ordinal {arg} not found (function has {len(loops)} loops) -- anchor lost")
                 lp = loops[arg]
